@@ -388,10 +388,6 @@ Proof.
   apply (mon_run_model ops (init_counter n m) mon_init), coupled_init, Hn.
 Qed.
 
-(* the model conforms to itself: conform_counter on its own trace is [] *)
-Lemma first_diff_refl l i : first_diff i l l = [].
-Proof. revert i; induction l as [|x l IH]; intros i; cbn; [reflexivity|]. destruct x; cbn; apply IH. Qed.
-
 (* ---- cannot stay blocked ------------------------------------------------- *)
 (* after a success while blocked, at least N further results are needed
    before the counter can block again *)
@@ -543,66 +539,102 @@ Proof.
     cbn [negb andb orb fst snd bhstate_eqb]; reflexivity.
 Qed.
 
+Lemma keep_same_cls u v a b : same_cls a b = true -> keep u v a = keep u v b.
+Proof.
+  unfold same_cls, keep. intros H.
+  apply andb_prop in H. destruct H as [H H3]. apply andb_prop in H. destruct H as [H1 H2].
+  apply eqb_prop in H1, H2, H3. rewrite H1, H2, H3. reflexivity.
+Qed.
+
+Lemma in_combine_map {A B} (f : A -> B) l x : In x (combine l (map f l)) -> snd x = f (fst x).
+Proof.
+  induction l as [|a l IH]; cbn; [intros []|]. intros [<-|H]; [reflexivity|apply IH, H].
+Qed.
+
+Lemma verdict_consistent_map (f : addr -> bool) l :
+  (forall a b, same_cls a b = true -> f a = f b) ->
+  verdict_consistent (combine l (map f l)) = true.
+Proof.
+  intros Hf. unfold verdict_consistent. apply forallb_forall. intros x Hx.
+  apply forallb_forall. intros y Hy.
+  destruct (same_cls (fst x) (fst y)) eqn:E; [|reflexivity]. cbn [negb orb].
+  rewrite (in_combine_map f l x Hx), (in_combine_map f l y Hy), (Hf _ _ E).
+  apply eqb_reflx.
+Qed.
+
 Lemma filter_ok_model d l :
   filter_ok (d_ro d) (ost (d_udp d)) (ost (d_ip6 d)) l (filter_flags d l) = true.
 Proof.
   unfold filter_ok, filter_flags. pose proof (filter_flag_ok d l) as H.
   destruct (filter_results d l) as [ur vr].
   rewrite map_length, Nat.eqb_refl. cbn [andb].
+  rewrite verdict_consistent_map by (apply keep_same_cls). rewrite andb_true_r.
   rewrite forallb_combine_map. apply forallb_forall. intros a Hin. apply (H a Hin).
 Qed.
 
-Lemma tstep_ro d o : d_ro (fst (tstep d o)) = d_ro d.
-Proof.
-  destruct o as [[l|a b]|w b]; cbn.
-  - unfold filter_addrs.
-    destruct (d_udp d), (d_ip6 d);
-      repeat match goal with |- context [if ?x then _ else _] => destruct x end;
-      repeat match goal with |- context [get_filter_state ?r ?c] => destruct (get_filter_state r c) end;
-      reflexivity.
-  - unfold det_record. destruct (d_ro d || negb (a_pub a)); reflexivity.
-  - destruct w; reflexivity.
-Qed.
+Lemma cint_eqb_refl c : cint_eqb c c = true.
+Proof. destruct c as [[a b] d]. unfold cint_eqb. rewrite !Z.eqb_refl. reflexivity. Qed.
 
-Lemma monitor_det_model ops : forall d i,
-  monitor_det (d_ro d) (ost (d_udp d)) (ost (d_ip6 d)) i (dtrace d ops) = [].
+Lemma cview_eqb_refl c : cview_eqb c c = true.
+Proof. destruct c as [a b]. unfold cview_eqb; cbn [fst snd]. rewrite Z.eqb_refl, cint_eqb_refl. reflexivity. Qed.
+
+Lemma ostz_cview o : ostz (fst (cview_of o)) = ost o.
+Proof. destruct o as [c|]; [|reflexivity]. cbn. destruct (st c); reflexivity. Qed.
+
+Lemma monitor_det_model ops : forall p i,
+  monitor_det (cview_of (fst p)) (cview_of (snd p)) i (dtrace p ops) = [].
 Proof.
-  induction ops as [|o r IH]; intros d i; [reflexivity|].
-  cbn [dtrace]. destruct (tstep d o) as [d' x] eqn:E.
-  assert (Hro : d_ro d' = d_ro d) by (rewrite <- (tstep_ro d o), E; reflexivity).
+  induction ops as [|o r IH]; intros p i; [reflexivity|]. destruct p as [pu pv].
+  cbn [dtrace]. destruct (tstep (pu, pv) o) as [p' x] eqn:E.
   unfold tstep in E. cbn [monitor_det].
-  destruct o as [[l|a b]|w b].
+  destruct o as [ro [l|a b]|w b].
   - injection E as <- <-.
-    rewrite filter_ok_model. cbn [andb].
-    set (d1 := fst (fst (filter_addrs d l))) in *.
-    assert (Hfr : negb (d_ro d) ||
-              ((z_of_ost (ost (d_udp d)) =? z_of_ost (ost (d_udp d1)))%Z &&
-               (z_of_ost (ost (d_ip6 d)) =? z_of_ost (ost (d_ip6 d1)))%Z) = true).
-    { destruct (d_ro d) eqn:R; [|reflexivity]. cbn [negb orb].
-      unfold d1. rewrite readonly_filter_frozen by exact R. rewrite !Z.eqb_refl. reflexivity. }
-    rewrite Hfr. rewrite !ostz_z_of_ost. rewrite <- Hro. apply IH.
-  - injection E as <- <-. cbn [andb].
-    assert (Hfr : negb (d_ro d) ||
-              ((z_of_ost (ost (d_udp d)) =? z_of_ost (ost (d_udp (det_record d a b))))%Z &&
-               (z_of_ost (ost (d_ip6 d)) =? z_of_ost (ost (d_ip6 (det_record d a b))))%Z) = true).
-    { destruct (d_ro d) eqn:R; [|reflexivity]. cbn [negb orb].
-      rewrite readonly_record_frozen by exact R. rewrite !Z.eqb_refl. reflexivity. }
-    rewrite Hfr. rewrite !ostz_z_of_ost. rewrite <- Hro. apply IH.
-  - destruct w; cbv beta iota zeta in E; injection E as <- <-; cbn [andb];
-      rewrite !ostz_z_of_ost; apply (IH (mkDet _ _ (d_ro d))).
+    rewrite !ostz_cview.
+    pose proof (filter_ok_model (det_of (pu, pv) ro) l) as Hok. cbn [det_of d_ro d_udp d_ip6] in Hok.
+    cbn [fst snd] in *. rewrite Hok. cbn [andb].
+    destruct ro.
+    + rewrite readonly_filter_frozen by reflexivity. cbn [pair_of det_of d_udp d_ip6 fst snd].
+      rewrite !cview_eqb_refl. cbn [andb]. apply (IH (pu, pv)).
+    + apply (IH (pair_of (fst (fst (filter_addrs (det_of (pu, pv) false) l))))).
+  - injection E as <- <-. cbn [andb fst snd].
+    destruct ro.
+    + rewrite readonly_record_frozen by reflexivity. cbn [pair_of det_of d_udp d_ip6 fst snd].
+      rewrite !cview_eqb_refl. cbn [andb]. apply (IH (pu, pv)).
+    + apply (IH (pair_of (det_record (det_of (pu, pv) false) a b))).
+  - destruct w; cbv beta iota zeta in E; injection E as <- <-; cbn [andb fst snd];
+      [apply (IH (pu, option_map (fun c => record_result c b) pv))
+      |apply (IH (option_map (fun c => record_result c b) pu, pv))].
 Qed.
 
 (* the model conforms to its own trace (sanity of the conformance function) *)
 Lemma dobs_eqb_refl x : dobs_eqb x x = true.
 Proof.
-  destruct x as [f u v]. unfold dobs_eqb. rewrite !Z.eqb_refl.
+  destruct x as [f u v]. unfold dobs_eqb. rewrite !cview_eqb_refl.
   replace (list_eqb Bool.eqb f f) with true; [reflexivity|].
   induction f as [|b f IH]; cbn; [reflexivity|]. rewrite <- IH. destruct b; reflexivity.
 Qed.
 
-Lemma conform_det_model ops : forall d i, conform_det d i (dtrace d ops) = [].
+Lemma conform_det_model ops : forall p i, conform_det p i (dtrace p ops) = [].
 Proof.
-  induction ops as [|o r IH]; intros d i; [reflexivity|].
-  cbn [dtrace]. destruct (tstep d o) as [d' x] eqn:E. cbn [conform_det]. rewrite E.
+  induction ops as [|o r IH]; intros p i; [reflexivity|].
+  cbn [dtrace]. destruct (tstep p o) as [p' x] eqn:E. cbn [conform_det]. rewrite E.
   rewrite dobs_eqb_refl. apply IH.
+Qed.
+
+(* the counter model conforms to its own trace, internals included *)
+Definition ctrace_full (c : counter) (ops : list cop) : list (cop * bhstate * cint) :=
+  (fix go c ops :=
+     match ops with
+     | [] => []
+     | o :: r => let '(c', y) := cstep c o in (o, y, cint_of c') :: go c' r
+     end) c ops.
+
+Lemma bhstate_eqb_refl x : bhstate_eqb x x = true.
+Proof. destruct x; reflexivity. Qed.
+
+Lemma conform_counter_model ops : forall c i, conform_counter_run c i (ctrace_full c ops) = [].
+Proof.
+  induction ops as [|o r IH]; intros c i; [reflexivity|].
+  cbn [ctrace_full conform_counter_run]. destruct (cstep c o) as [c' y] eqn:E.
+  cbn [conform_counter_run]. rewrite E, bhstate_eqb_refl, cint_eqb_refl. cbn [andb]. apply IH.
 Qed.
